@@ -1381,10 +1381,15 @@ class Emitter:
                 fpt = s.ctype(TPtr(fty))
                 call = '((%s)%s)(%s)' % (fpt, s.cexpr(callee), ', '.join(argv))
             line = ('%s = %s;' % (R, call)) if R and not isinstance(ins.rty, TVoid) else (call + ';')
+            if R and isinstance(ins.rty, TInt) and ins.rty.bits == 1 and (cname is not None and ('@' + cname) in s.m.decls):
+                # an external function returning i1 (e.g. nondet_bool) is declared u8 in C: keep only the defined bit
+                post_mask = '  %s &= 1;' % R
+            else: post_mask = None
             if pre:
                 out.append('  { ' + ' '.join(pre) + ' ' + line + ' }')
             else:
                 out.append('  ' + line)
+            if post_mask: out.append(post_mask)
         # exception propagation
         nounwind = s.fn_is_nounwind(ins.groups, callee.name if cname else None) or (cname and cname.startswith('llvm.'))
         if ins.op == 'invoke':
